@@ -90,11 +90,11 @@ theorem getField_setField (fs : List (Nat × Nat)) (k : Nat) (v : Option Nat) :
     rw [List.lookup_eq_none_iff]
     intro p hp
     simp only [List.mem_filter, decide_eq_true_eq] at hp
-    simp only [beq_iff_eq]
+    simp only [bne_iff_ne, ne_eq]
     exact fun e => hp.2 e.symm
   cases v with
   | none => exact hnone
-  | some x => simp only []; rw [List.lookup_append, hnone]; simp
+  | some x => rw [List.lookup_append, hnone]; simp
 
 theorem field_faithful (c : Contact) (k : Nat) (v : Option Nat) : Faithful c (applyField c k v) := by
   unfold applyField Faithful
@@ -114,7 +114,7 @@ theorem field_idem (c : Contact) (k : Nat) (v : Option Nat) :
   unfold applyField
   split
   · simp only [getField_setField, ne_eq, not_true_eq_false, if_false]
-  · rename_i h; rw [if_neg h]
+  · rename_i h; simp only [if_neg h]
 
 /-- URNs: every URN the modifier names is handled in order; error events do not change the
 contact; the `contact_urns_changed` event carries the whole resulting list -/
@@ -149,7 +149,8 @@ theorem urns_faithful (c : Contact) (m : URNsMod) (urns : List (Option URN)) :
   · rename_i h
     refine ⟨?_, ?_, ?_⟩
     · simp only; rw [replayAll_append, replay_errors c _ herr]; rfl
-    · simp only [true_iff]; intro e; apply h; rw [← e]
+    · simp only [true_iff]; intro e
+      exact h (by have := congrArg Contact.urns e; simpa using this)
     · simp [Ev.isChange]
   · rename_i h
     refine ⟨replay_errors c _ herr, by simp, ?_⟩
@@ -163,14 +164,25 @@ theorem urns_set_idem (c : Contact) (urns : List (Option URN)) :
     (applyURNs (applyURNs c .set urns).contact .set urns).contact = (applyURNs c .set urns).contact := by
   have hr : ∀ c' : Contact, urnsResult c' .set urns = urnsResult c .set urns := by
     intro c'; simp [urnsResult]
-  unfold applyURNs
   by_cases h : (urnsResult c .set urns).1 ≠ c.urns
-  · simp only [h, if_true, hr, ne_eq, not_true_eq_false, if_false, and_self]
-  · simp only [h, if_false, and_self]
+  · have h1 : applyURNs c .set urns = ⟨{ c with urns := (urnsResult c .set urns).1 },
+        (urnsResult c .set urns).2 ++ [.urnsChanged (urnsResult c .set urns).1], true⟩ := by
+      unfold applyURNs; rw [if_pos h]
+    rw [h1]
+    simp only
+    unfold applyURNs
+    rw [hr]
+    simp
+  · have h1 : applyURNs c .set urns = ⟨c, (urnsResult c .set urns).2, false⟩ := by
+      unfold applyURNs; rw [if_neg h]
+    rw [h1]
+    simp only
+    rw [h1]
+    simp
 
-/-- blocked and stopped contacts are refused; the refusal changes nothing -/
+/-- contacts that are not active are refused; the refusal changes nothing -/
 theorem groups_refused (isQuery : Nat → Bool) (c : Contact) (add : Bool) (gs : List Nat)
-    (h : c.status = .blocked ∨ c.status = .stopped) :
+    (h : c.status ≠ .active) :
     applyGroups isQuery c add gs = ⟨c, [.error], false⟩ := by
   simp [applyGroups, h]
 
@@ -204,13 +216,15 @@ theorem groups_modified_iff_event (isQuery : Nat → Bool) (c : Contact) (add : 
   · simp
   · split
     · split
-      · simp
+      · simp only [true_iff]
+        exact ⟨(groupsAddLoop isQuery c.groups gs).2.1, [], by simp⟩
       · simp only [Bool.false_eq_true, false_iff, not_exists]
         intro a r hm
         have := hadd c.groups gs _ hm
         cases this
     · split
-      · simp
+      · simp only [true_iff]
+        exact ⟨[], (groupsRemoveLoop isQuery c.groups gs).2.1, by simp⟩
       · simp only [Bool.false_eq_true, false_iff, not_exists]
         intro a r hm
         have := hrem c.groups gs _ hm
